@@ -26,7 +26,7 @@ func isBinOp(t string) bool { return t == "&" || t == "|" || t == "->" || t == "
 func c17Gen(r *gen.Rng, tier string, idx int) interface{} {
 	o := gen.FormulaOpts{MaxDepth: r.Range(1, 5), NbVars: r.Range(1, 6), TextOnly: true, Seq: r.Chance(1, 3), NegUniq: true, MaxGroup: 0}
 	if r.Chance(1, 3) {
-		o.MaxGroup = r.Range(1, 4)
+		o.MaxGroup = r.Range(1, 6)
 	}
 	tree := gen.RandomFormula(r, o, 0, false)
 	if r.Chance(1, 20) { // ';' inside parentheses, as the documented grammar allows
@@ -176,9 +176,6 @@ func c17Run(ci interface{}, rec *Rec) {
 		return
 	}
 	vars := tree.Vars()
-	if maxGroup(tree) >= 5 {
-		return
-	}
 	for a := uint32(0); a < 1<<uint(len(vars)); a++ {
 		m := ref.AssignOf(vars, a)
 		var got bool
@@ -204,7 +201,7 @@ func init() {
 		New:      func() interface{} { return &C17Case{} },
 		Run:      c17Run,
 		Setup:    func(string) { InstallSeqHooks() },
-		Rule: "random syntax trees (depth <= 5, 1..6 variables, operators ^ & | -> = ; and exactly-one groups of 1..4 variables, ';' also inside parentheses) rendered with minimal parentheses by the documented priorities and right nesting, with some redundant parentheses, or fully parenthesised, and with no / single / mixed whitespace (spaces, tabs, newlines); one third of the texts are then corrupted at token level (identifier deleted, operator doubled or deleted, parenthesis deleted or inserted, trailing tokens). The harness's own reader of the documented grammar decides whether a text is well formed and what it means; bf.Parse must succeed and agree under every assignment (Eval), or fail with an error and a nil formula. " +
+		Rule: "random syntax trees (depth <= 5, 1..6 variables, operators ^ & | -> = ; and exactly-one groups of 1..6 variables, ';' also inside parentheses) rendered with minimal parentheses by the documented priorities and right nesting, with some redundant parentheses, or fully parenthesised, and with no / single / mixed whitespace (spaces, tabs, newlines); one third of the texts are then corrupted at token level (identifier deleted, operator doubled or deleted, parenthesis deleted or inserted, trailing tokens). The harness's own reader of the documented grammar decides whether a text is well formed and what it means; bf.Parse must succeed and agree under every assignment (Eval), or fail with an error and a nil formula. " +
 			"non-trivial = well-formed text of >= 5 tokens or malformed text of >= 3 tokens; distinct by token list",
 		Assumptions: []string{
 			"reference tokenizer / recursive-descent reader of the grammar documented in bf/doc.go and bf/parser.go (internal/ref)",
